@@ -53,7 +53,7 @@ Definition step (c : cfg) (st : list string * list (list string)) (o : op) : lis
       | [] => (buf, printed)
       | _ => (buf ++ head_lines c title ++ (if srt then sortf sec else sec) ++ sep_lines c, printed)
       end
-  | OVNow s => if c_verbose c then ([], printed ++ [buf ++ emits c [(OInfo, s, false)]]) else (buf, printed)
+  | OVNow s => if c_verbose c && negb (c_json c) then ([], printed ++ [buf ++ emits c [(OInfo, s, false)]]) else (buf, printed)   (* progress messages are suppressed in JSON mode (debug mode is not modelled) *)
   | OWrite => ([], printed ++ [buf])
   end.
 Definition run (c : cfg) (prog : list op) : list string * list (list string) := fold_left (step c) prog ([], []).
